@@ -408,5 +408,17 @@ def taken_behaviours(trans, key=lambda st: json.dumps(st, sort_keys=True)):
     return [b for b in behaviours if b]
 
 
+def repo_tests_traced(work: Path, tests: Sequence[str], plugin: str = 'harness.tracer_sp', timeout: int = 1500):
+    """Run some of the repository's own tests under a tracer plugin (harness/tracer*.py, pytest -p) with the guarded hooks
+    on, and return what the plugin wrote.  A failing or crashing test run is a machinery failure, never a verdict."""
+    out = work / 'repo_trace.json'
+    env = dict(os.environ, FGGS_VERIF='1', VERIF_TRACE_OUT=str(out), PYTHONPATH=f'{REPO}:{VERIF}', OMP_NUM_THREADS='1')
+    p = subprocess.run(['/venv/bin/python', '-m', 'pytest', '-q', '-p', 'no:cacheprovider', '-p', plugin, *tests],
+                       cwd=str(REPO), env=env, capture_output=True, text=True, timeout=timeout)
+    if not out.exists():
+        raise MachineryFailure('tracer produced no output: ' + p.stdout[-300:] + p.stderr[-300:])
+    return json.loads(out.read_text())
+
+
 def rng_for(seed: int, tag: str) -> random.Random:
     return random.Random(f'{seed}:{tag}')
